@@ -1647,7 +1647,7 @@ Proof.
   intros e Hq Hr. destruct (full_modulo_reserved e Hq Hr) as [cs [Hc Hs]]. exists cs. split; [exact Hc|].
   destruct (accepted_names_settings e cs Hc) as [Hn Hg]. split; [exact Hs|]. split; [exact Hn|]. split; [exact Hg|].
   destruct (list_scoped_by_shard_keys e cs Hc Hq) as [Hlp _].
-  split; [exact Hlp|]. split; [exact (list_request_scoped_by_shard_keys e cs Hc)|exact (field_types_as_declared e cs Hc)].
+  split; [exact Hlp|]. split; [exact (list_request_scoped_by_shard_keys e cs Hc)|]. split; [exact (field_types_as_declared e cs Hc)|exact (member_field_types_as_declared e cs Hc)].
 Qed.
 
 (* an entity named Page: its own property in the List response is "page", next to the page field *)
